@@ -171,6 +171,26 @@ def _check_key(ctx, pgpy, k, info, shape, r):
         cp = copy.copy(obj)
         if bytes(cp) != blob:
             ctx.fail('copy-exports-differently', dict(where, half=half, lens=[len(blob), len(bytes(cp))]))
+    # (4b) the same key with "not exportable" / "expired" / "not revocable" subpackets appended to the UNSIGNED area of every signature (anyone can
+    # do that to a key in transit): nothing is marked by that - every signature is still exported, attached where it was, and verifies
+    from .. import unhashed
+    pub_blob0 = bytes(k.pubkey)
+    for label, extra in (('not-exportable', unhashed.NOT_EXPORTABLE), ('several', unhashed.NOT_EXPORTABLE + unhashed.sp(3, (1).to_bytes(4, 'big')) + unhashed.sp(7, b'\x00'))):
+        ublob, nsig_u = unhashed.inject(pub_blob0, set(range(0x10, 0x41)), extra)
+        ctx.count('passes_compared')
+        ctx.count('unsigned_additions')
+        try:
+            ku = pgpy.PGPKey.from_blob(ublob)[0]
+            want_u = keyshape.blob_tree(ublob)[0]
+            got_u = keyshape.blob_tree(bytes(ku))[0]
+            dd = keyshape.tree_diff(want_u, got_u)
+            if dd:
+                ctx.fail('signature-dropped-because-of-an-unsigned-subpacket', dict(where, addition=label, differs=dd, signatures_touched=nsig_u))
+            g_, b_, s_ = verified_sigs(pgpy, ku)
+            if b_:
+                ctx.fail('signature-fails-after-import', dict(where, addition=label, bad=len(b_)))
+        except Exception as e:
+            ctx.fail('own-export-not-importable', dict(where, addition=label, err=repr(e)[:160]))
     # (5) foreign framings of the same key: old-format headers where possible, trust packets interleaved
     pub_blob = bytes(k.pubkey)
     pk = wire.split(pub_blob)
